@@ -4,13 +4,14 @@ CONFIG = {
     "cmd": "c18",
     "timeout": 1500,
     "trusted": [
-        "modelled (Dom.v): element trees, located elements (zipper), tag/.class/#id/descendant/child selectors with CSS ancestor semantics, their relative XPath translation, select_all in document order and the accessor family defined from it, attribute/style/text/markup writes, navigation",
+        "modelled (Dom.v): element trees, located elements (zipper), tag/.class/#id/descendant/child selectors with CSS ancestor semantics, their relative XPath translation, select_all in document order and the accessor family defined from it, attribute/style/text/markup writes, navigation; one element wrapper with its attribute and parsed-style caches under histories of reads and writes (w_run) against the cache-free meaning (sp_run); style text of the form name: value; ... (parse_style)",
         "oracles on the generator's well-formed subset (not modelled, compared on every run): HTML5 tree construction (golang.org/x/net/html), cascadia selector matching, the antchfx XPath engine, the gorilla CSS scanner behind STYLE_GET",
         "harness projection: INNER_HTML strings are re-parsed into trees by golang.org/x/net/html before comparison (markup whitespace/quoting is not compared); the harness checks that every generated document is a fixed point of the HTML parser",
         "every implementation call runs in a child process; a dead or silent (20 s) worker is the observation 'crash'",
     ],
     "assumptions": [
-        "style values are identifiers or dimensions (a bare number is re-typed by DeserializeStyles); attribute names written by the check are not id/class/style",
+        "style values are identifiers or dimensions (a bare number is re-typed by DeserializeStyles); attribute names written by the single-write queries are not id/class/style; histories write data-w/title/data-k/lang and style (as text in three spellings, as object, in a bulk object), never id/class/data-n",
+        "the order in which SerializeStyles and object-valued ATTR_SET/STYLE_SET visit their keys is Go map order: declarations and attribute objects are compared sorted by name",
     ],
 }
 
@@ -26,15 +27,39 @@ QNAME = {
     43: "STYLE_GET of every match", 44: "e.style[name] of every match", 45: "parent/siblings/children of every match",
     46: "ATTR_GET(ELEMENT(c,s))", 47: "STYLE_GET(ELEMENT(c,s))", 48: "parent/siblings/children of ELEMENT(c,s)",
     50: "INNER_TEXT(c)", 51: "INNER_HTML(c)", 52: "LENGTH(c.children)",
-    60: "ATTR_SET then ATTR_GET", 61: "STYLE_SET then STYLE_GET", 62: "INNER_TEXT_SET then INNER_TEXT", 63: "INNER_HTML_SET then INNER_HTML",
+    60: "ATTR_SET then ATTR_GET", 61: "STYLE_SET then STYLE_GET", 62: "INNER_TEXT_SET then INNER_TEXT / INNER_HTML / children", 63: "INNER_HTML_SET then INNER_HTML",
 }
 
 
 def describe(meta, fname, t):
     kind, i, j = t
     docs = meta["index"]["docs"]
-    if kind == 999 or i >= len(docs) or j >= len(docs[i]["cases"]):
+    if kind == 999 or i >= len(docs) or (kind not in (70, 170) and j >= len(docs[i]["cases"])):
         return {"key": "malformed|%s" % (t,), "what": "malformed case %s (context not found in the model's tree)" % (t,), "mkind": kind}
+    if kind in (70, 170):
+        d = docs[i]
+        hj, k = j // 100, j % 100
+        hs = d.get("hist") or []
+        if hj >= len(hs):
+            return {"key": "malformed|%s" % (t,), "what": "malformed history case %s" % (t,), "mkind": kind}
+        h = hs[hj]
+        reads = h["reads"]
+        at = reads[k] if k < len(reads) else None
+        step = ("read #%d, step %d: %s" % (k, at, h["ops"][at])) if at is not None else "the list of reads (length)"
+        before = "; ".join(h["ops"][:at]) if at is not None else "; ".join(h["ops"])
+        tags = ["history"]
+        if kind == 170:
+            tags.append("attr-remove-style-stale")
+        if h["impl"].startswith("worker"):
+            tags.append("crash")
+        what = ("history on one element wrapper e = ELEMENT(PARSE(html), %r): %s disagrees with the model after the steps so far [%s]%s; "
+                "reads returned %s ; html=%s ; program=%s"
+                % (h["css"], step, before,
+                   " but equals the mirror of RemoveAttribute keeping the parsed styles after ATTR_REMOVE(e, 'style')" if kind == 170 else "",
+                   h["impl"], d["html"], h["program"].replace("\n", " ")))
+        return {"key": "%d|%s|%s|%s" % (kind, d["html"], h["css"], h["program"]), "what": what, "mkind": kind, "tags": tags,
+                "query": "history", "fql": h["program"], "impl": h["impl"], "html": d["html"], "css": h["css"],
+                "theorem": "C18: wrapper_caches_invisible / style_read_after_bulk_write (correspondence)"}
     d, c = docs[i], docs[i]["cases"][j]
     dup = kind > 100
     q = kind - 100 if dup else kind
